@@ -4,7 +4,7 @@
     for exact predictors also the other way round.  Pairs: FORSize/FOREncode+BatchEncode, PFORSize/PFOREncode,
     DictEncodedSizeWithDict/DictEncodeWithDict, GroupSize/GroupEncode (+ the width-normalisation decision lists), RLEAnalyze/RLEEncode
  Z2 maximum-size bounds: a symbolic upper bound of every write through the destination (and of the returned length) is at most the
-    sizing function, as polynomials with non-negative atoms: varintDeltaEncode / EncodeUnsigned vs varintDeltaMaxEncodedSize
+    sizing function for every residue of count: delta (2), BP128 (4), Elias gamma / delta array encoders (2)
 Not decided here: RLE max size (amortised), adaptive max size (depends on selection), Elias / BP128 / float maximum sizes (bit
 cursors kept in reader/writer objects, block residues) - listed in the evidence."""
 import os
@@ -13,14 +13,18 @@ from ..common import lib_module, configs_for, need_fn
 from ..build import AnalysisBroken
 from ..core import World
 from .. import sizeterms as ST
-from ..esize import UB, Poly, Unbounded, pmax, fmt_atom
+from ..esize import UB, Poly, Unbounded, pmax, fmt_atom, residue_eval
 
 PROP = "C03"
 PAIRS = [("varintFORSize", "varintFOREncode", True), ("varintFORSize", "varintFORBatchEncode", True), ("varintPFORSize", "varintPFOREncode", False),
          ("varintDictEncodedSizeWithDict", "varintDictEncodeWithDict", True), ("varintGroupSize", "varintGroupEncode", True), ("varintRLEAnalyze", "varintRLEEncode", True)]
 TOTALS = [("varintFORSize", None, "varintFOREncode", True), ("varintFORSize", None, "varintFORBatchEncode", True), ("varintPFORSize", None, "varintPFOREncode", False),
           ("varintDictEncodedSizeWithDict", None, "varintDictEncodeWithDict", True), ("varintRLEAnalyze", "encodedSize", "varintRLEEncode", True)]
-MAXSIZE = [("varintDeltaEncode", "output", "w_deltaMaxEncodedSize", {"count": "count"}), ("varintDeltaEncodeUnsigned", "output", "w_deltaMaxEncodedSize", {"count": "count"})]
+# (encoder, destination parameter, witness wrapper of the sizing function (witness/sizers.c), count parameter, period of the residue comparison)
+MAXSIZE = [("varintDeltaEncode", "output", "w_deltaMaxEncodedSize", "count", 1), ("varintDeltaEncodeUnsigned", "output", "w_deltaMaxEncodedSize", "count", 1),
+           ("varintBP128Encode32", "dst", "w_bp128MaxBytes", "count", 128), ("varintBP128Encode64", "dst", "w_bp128MaxBytes", "count", 128),
+           ("varintBP128DeltaEncode32", "dst", "w_bp128MaxBytes", "count", 128), ("varintBP128DeltaEncode64", "dst", "w_bp128MaxBytes", "count", 128),
+           ("varintEliasGammaEncodeArray", "dst", "w_eliasGammaMaxBytes", "count", 8), ("varintEliasDeltaEncodeArray", "dst", "w_eliasDeltaMaxBytes", "count", 8)]
 
 
 def loc(i): return "%s:%s" % (rel(i.d.get("file", i.fn.file)), i.d.get("line", "?"))
@@ -91,48 +95,59 @@ def analyse(mod, run, label):
                   Finding("Z3-total-size-differs", pred, enc, "total", "%s predicts %r bytes but %s advances its output by %r" % (pred, pp, enc, ep), loc="%s:%s" % (rel(pf.file), pf.line)))
     # ---- Z2 ----
     nmax = 0
-    for enc, dstn, sizer, amap in MAXSIZE:
+    from ..bounds import Bounds
+    B = Bounds(w)
+    for enc, dstn, sizer, cname, M in MAXSIZE:
         ef = need_fn(mod, enc); sf = need_fn(mod, sizer)
-        dk = ef.param_index(dstn)
-        if dk is None: raise AnalysisBroken("%s: parameter %s not found" % (enc, dstn))
-        ub = UB(w, ef)
-        # sizing function: exact polynomial of its return on the non-trivial path (largest of its returns)
-        su = UB(w, sf); size = None
+        dk = ef.param_index(dstn); ck = ef.param_index(cname)
+        if dk is None or ck is None: raise AnalysisBroken("%s: parameters %s / %s not found" % (enc, dstn, cname))
+        ub = UB(w, ef); ub.q = M > 1
+        ca = ub.arg_atom(ck)
+        # the sizing function, exactly, in terms of the encoder's count
+        su = UB(w, sf); su.q = True; su.exact_args[0] = Poly.atom(ca)
+        size = su.exact_return()
+        if size is None: raise AnalysisBroken("%s: sizing function is not an exact expression of count" % sizer)
         try:
-            for rt in sf.rets():
-                v = rt.ops[0]
-                cands = [inc["v"] for inc in sf.imap[v["v"]]["incoming"]] if v["k"] == "inst" and sf.imap[v["v"]].op == "phi" else [v]
-                for c in cands:
-                    if c["k"] == "int" and int(c["v"]) == 0: continue
-                    p = exact_poly(sf, su, c)
-                    size = p if size is None else size
-        except Unbounded as e: raise AnalysisBroken("%s: sizing function not evaluable: %s" % (sizer, e))
-        # rename the sizing function's parameter atoms to the encoder's
-        ren = {}
-        for sp, ep in amap.items():
-            a1 = su.arg_atom(sf.param_index(sp)); a2 = ub.arg_atom(ef.param_index(ep)); ren[a1] = a2
-        for a1, a2 in ren.items(): size = size.subst(a1, Poly.atom(a2))
-        try:
-            from ..bounds import Bounds
-            B = Bounds(w)
-            worst, nacc = ub.extent(B, ("arg", dk))
+            indirect = []
+            worst, nacc = ub.extent(B, ("arg", dk), indirect=indirect)
             if not worst: raise AnalysisBroken("%s: no writes through %s found" % (enc, dstn))
+            for cal, ln in indirect:
+                run.observe("%s line %s: %s writes the destination through the pointer kept in a writer object; its bytes are assumed to lie below the byte count the writer reports (bit position / 8), which is what is bounded here" % (enc, ln, cal))
             for rt in ef.rets():
                 if rt.ops and rt.ops[0]["k"] != "int":
                     v = rt.ops[0]
-                    cands = [inc["v"] for inc in ef.imap[v["v"]]["incoming"]] if v["k"] == "inst" and ef.imap[v["v"]].op == "phi" else [v]
+                    cands = [inc["v"] for inc in ef.imap[v["v"]]["incoming"]] if v["k"] == "inst" and ef.imap[v["v"]].op == "phi" and ef.imap[v["v"]].block is rt.block else [v]
                     for c in cands:
                         if c["k"] == "int": continue
-                        worst.append(ub.ub(c))
+                        worst.append((ub.at(rt.block).ub(c), None))
         except Unbounded as e:
-            raise AnalysisBroken("%s: output cursor not boundable: %s" % (enc, e))
+            run.defer_broken("Z2 %s: output cursor not boundable: %s" % (enc, e)); continue
         nmax += 1
-        # compare for count >= 1: substitute count = 1 + c'
-        ca = ub.arg_atom(ef.param_index("count"))
-        shift = Poly.atom(ca) + Poly.const(1)
-        bad = [q for q in worst if not (size.subst(ca, shift) - q.subst(ca, shift)).nonneg_coeffs()]
-        run.check(not bad, "Z2-writes-within-max-size", {"encoder": enc, "writes_checked": nacc, "upper_bounds": [repr(q) for q in worst], "advertised": repr(size)},
-                  Finding("Z2-max-size-too-small", enc, sizer, "bound", "%s can write up to %s bytes but %s promises %r" % (enc, " / ".join(repr(q) for q in bad), sizer.replace("w_", "varintD", 1).replace("varintDd", "varintD"), size), loc="%s:%s" % (rel(ef.file), ef.line)))
+        bad = []; ncmp = 0
+        try:
+            for r in range(M):
+                for qpos in (False, True):
+                    if not qpos and r == 0: continue                      # count == 0 writes nothing (checked by the emptiness return)
+                    S = residue_eval(size, ca, M, r, qpos)
+                    for p, cond in worst:
+                        if cond is not None:
+                            cv = residue_eval(cond, ca, M, r, qpos)
+                            if cv.is_const() and cv.c() <= 0: continue     # this kind of iteration does not occur for such a count
+                        ncmp += 1
+                        d = S - residue_eval(p, ca, M, r, qpos)
+                        if not d.nonneg_coeffs():
+                            bad.append((r, qpos, p, S, d)); break
+                    if bad: break
+                if bad: break
+        except Unbounded as e:
+            run.defer_broken("Z2 %s: %s" % (enc, e)); continue
+        sname = sizer.replace("w_", "varint", 1); sname = sname[:6] + sname[6].upper() + sname[7:]
+        what = ""
+        if bad:
+            r, qpos, p, S, d = bad[0]
+            what = "%s can write up to %r bytes but %s promises %r (for count = %s: bound %r, promised %r)" % (enc, p, sname, size, ("%d*q + %d, q >= 1" % (M, r)) if qpos else str(r), S - d, S)
+        run.check(not bad, "Z2-writes-within-max-size", {"encoder": enc, "write_sites": nacc, "upper_bounds": [repr(q) + ("" if c is None else "  [when %r > 0]" % c) for q, c in worst], "advertised": repr(size), "residues": M, "comparisons": ncmp},
+                  Finding("Z2-max-size-too-small", enc, sname, "bound", what, loc="%s:%s" % (rel(ef.file), ef.line)))
     return npairs, nmax, ntot
 
 
@@ -205,13 +220,15 @@ def run(tier):
         per[cfg] = {"predictor_encoder_pairs": np_, "max_size_sites": nm, "total_size_pairs": nt}
         if not getattr(run, "deferred", None): run.floor("total-size pairs (%s)" % cfg, nt, 5)
         run.floor("predictor/encoder pairs (%s)" % cfg, np_, 6)
-        run.floor("max-size sites (%s)" % cfg, nm, 2)
+        if not getattr(run, "deferred", None): run.floor("max-size sites (%s)" % cfg, nm, 8)
     run.coverage.update({"configurations": per,
-                         "not_decided": ["varintRLEEncode vs varintRLEMaxSize (amortised argument)", "varintAdaptiveEncode vs varintAdaptiveMaxSize (depends on what is selected)",
-                                         "varintEliasGamma/DeltaEncodeArray vs *MaxBytes (bit cursor inside the writer object)", "varintBP128*Encode* vs varintBP128MaxBytes (block residues)",
-                                         "varintFloatEncode vs varintFloatMaxEncodedSize", "element-wise exactness of the predictors beyond term agreement (e.g. count*width products are compared as terms only for the call-based lengths)"]})
+                         "not_decided": ["varintRLEEncode vs varintRLEMaxSize (amortised argument: a run of L values costs len(L)+9 <= 10L)", "varintAdaptiveEncode vs varintAdaptiveMaxSize (depends on what the value-level selection picks)",
+                                         "varintFloatEncode vs varintFloatMaxEncodedSize (needs that special and normal values are exclusive)",
+                                         "write extents of the FOR / PFOR / Dict / Group encoders against their predictors (Z1 and Z3 compare terms and totals; a store wider than the cursor's advance is not seen)",
+                                         "bytes touched by varintBitWriterWrite are assumed to lie below varintBitWriterBytes()"]})
     return run.finish(
         "Z1: for each predictor/encoder pair the calls whose results advance the encoder's cursor and the calls whose results are summed by the "
-        "predictor are reduced to (length table, role of the measured value); the encoder's terms must be covered by the predictor's. Z2: for the delta "
-        "encoders every write offset and the returned length are bounded by init + back-edges x advance as a polynomial in count and compared "
-        "coefficient-wise with the sizing function.")
+        "predictor are reduced to (length table, role of the measured value); the encoder's terms must be covered by the predictor's. Z3: the totals "
+        "agree as polynomials. Z2: for the delta, BP128 and Elias encoders every write offset and the returned length are bounded by init + "
+        "iterations x advance (block loops: full blocks + one partial block; writer objects: summed bit counts) and compared with the exact sizing "
+        "function for every residue of count.")
